@@ -533,3 +533,61 @@ func init() {
 		fmt.Println(string(b))
 	}
 }
+
+func init() {
+	debugHooks["cbscan"] = func(p *ir.Program) {
+		c := &Ctx{P: p, R: report.New("DBG", "quick")}
+		a := c.lockAnalysis()
+		for _, fn := range p.FuncsIn("pkg/server") {
+			for _, b := range fn.Blocks {
+				for _, in := range b.Instrs {
+					call, ok := in.(*ssa.Call)
+					if !ok || call.Call.IsInvoke() || call.Call.StaticCallee() != nil {
+						continue
+					}
+					v := call.Call.Value
+					if u, ok := v.(*ssa.UnOp); ok {
+						v = u.X
+					}
+					isParam := false
+					switch x := v.(type) {
+					case *ssa.Parameter:
+						isParam = true
+					case *ssa.FreeVar:
+						_ = x
+						isParam = true
+					}
+					if !isParam {
+						continue
+					}
+					may, must, _ := a.At(call)
+					fmt.Printf("%s %s may=%s must=%s\n", p.InstrPos(call), ir.FuncKey(fn), may, must)
+				}
+			}
+		}
+	}
+}
+
+func init() {
+	debugHooks["events"] = func(p *ir.Program) {
+		c := &Ctx{P: p, R: report.New("DBG", "quick")}
+		fn := p.Func(os.Getenv("VERIF_FN"))
+		if fn == nil {
+			fmt.Println("not found")
+			return
+		}
+		evs := events(c, fn)
+		var ks []string
+		for k := range evs {
+			ks = append(ks, k)
+		}
+		sort.Strings(ks)
+		for _, k := range ks {
+			fmt.Println(len(evs[k]), k)
+		}
+		fmt.Println("EDGES")
+		for _, e := range orderEdges(c, fn) {
+			fmt.Println(e)
+		}
+	}
+}
